@@ -1,10 +1,11 @@
 package main
 
-// Model of bufio.Reader over a ghost byte stream (trusted): per reader ref
+// Model of bufio.Reader and bytes.Reader over a ghost byte stream (trusted): per reader ref
 //   pos  - number of bytes consumed so far
-//   data - the bytes the stream delivers, indexed from 0
+//   data - array holding the stream; the byte at stream index i is data[off+i]
+//   off  - 0 for bufio readers; the slice offset for bytes.NewReader(b) (data is b's backing array at creation)
 //   len  - how many bytes can be obtained before EOF / a read error
-// Peek does not consume; ReadByte / io.ReadFull / Read consume exactly what they return.
+// Peek does not consume; ReadByte / io.ReadFull / binary.Read consume exactly what they return.
 
 import (
 	"fmt"
@@ -17,6 +18,7 @@ const (
 	gBrPos  = "G|bufio.pos"
 	gBrData = "G|bufio.data"
 	gBrLen  = "G|bufio.len"
+	gBrOff  = "G|bufio.off"
 )
 
 func (e *Engine) ghostKeys() {
@@ -25,17 +27,21 @@ func (e *Engine) ghostKeys() {
 	}
 	e.heapSorts[gBrPos] = ArraySort(SInt, SInt)
 	e.heapSorts[gBrLen] = ArraySort(SInt, SInt)
+	e.heapSorts[gBrOff] = ArraySort(SInt, SInt)
 	e.heapSorts[gBrData] = ArraySort(SInt, ArraySort(SInt, SInt))
-	e.heapValKind[gBrPos], e.heapValKind[gBrLen], e.heapValKind[gBrData] = "", "", ""
+	e.heapValKind[gBrPos], e.heapValKind[gBrLen], e.heapValKind[gBrData], e.heapValKind[gBrOff] = "", "", "", ""
 }
 
-type brView struct{ pos, ln, data Term }
+type brView struct{ pos, ln, data, off Term }
+
+func (v brView) at(i Term) Term { return Select(v.data, Add(v.off, i)) }
 
 func (e *Engine) brGet(s *State, ref Term) brView {
 	e.ghostKeys()
 	return brView{
 		pos:  Select(s.heapGet(gBrPos, e.heapSorts[gBrPos]), ref),
 		ln:   Select(s.heapGet(gBrLen, e.heapSorts[gBrLen]), ref),
+		off:  Select(s.heapGet(gBrOff, e.heapSorts[gBrOff]), ref),
 		data: Select(s.heapGet(gBrData, e.heapSorts[gBrData]), ref),
 	}
 }
@@ -44,11 +50,15 @@ func (e *Engine) brSetPos(s *State, ref, pos Term) {
 	s.heapSet(gBrPos, Store(s.heapGet(gBrPos, e.heapSorts[gBrPos]), ref, pos))
 }
 
-func (e *Engine) brFacts(s *State, v brView) {
-	s.assume(And(Le(IntLit(0), v.pos), Le(v.pos, v.ln)))
+func (e *Engine) brSet(s *State, key string, ref, v Term) {
+	s.heapSet(key, Store(s.heapGet(key, e.heapSorts[key]), ref, v))
 }
 
-// freshBytesFromStream allocates a new byte slice of length n holding data[from .. from+n).
+func (e *Engine) brFacts(s *State, v brView) {
+	s.assume(And(Le(IntLit(0), v.pos), Le(v.pos, v.ln), Le(IntLit(0), v.off), Le(v.ln, Term{"4611686018427387904", SInt})))
+}
+
+// freshBytesFromStream allocates a new byte slice of length n holding stream[from .. from+n).
 func (e *Engine) freshBytesFromStream(s *State, v brView, from, n Term) Term {
 	key, sort := e.memKey(types.Typ[types.Uint8])
 	inner := arrayElemSort(sort)
@@ -56,13 +66,13 @@ func (e *Engine) freshBytesFromStream(s *State, v brView, from, n Term) Term {
 	if k, ok := litSmall(n); ok {
 		arr := Term{fmt.Sprintf("((as const %s) 0)", inner), inner}
 		for i := int64(0); i < k; i++ {
-			arr = Store(arr, IntLit(i), Select(v.data, Add(from, IntLit(i))))
+			arr = Store(arr, IntLit(i), v.at(Add(from, IntLit(i))))
 		}
 		s.heapSet(key, Store(s.heapGet(key, sort), base, e.u.Define("peekarr", arr)))
 		return e.u.Define("peeked", App("mk-slice", SSlice, base, IntLit(0), n, n))
 	}
 	arr := e.u.Fresh("peek", inner)
-	ax := fmt.Sprintf("(forall ((j Int)) (! (=> (and (<= 0 j) (< j %s)) (= (select %s j) (select %s (+ %s j)))) :pattern ((select %s j))))", n.S, arr.S, v.data.S, from.S, arr.S)
+	ax := fmt.Sprintf("(forall ((j Int)) (! (=> (and (<= 0 j) (< j %s)) (= (select %s j) (select %s (+ %s (+ %s j))))) :pattern ((select %s j))))", n.S, arr.S, v.data.S, v.off.S, from.S, arr.S)
 	s.assume(Term{ax, SBool})
 	s.heapSet(key, Store(s.heapGet(key, sort), base, arr))
 	return e.u.Define("peeked", App("mk-slice", SSlice, base, IntLit(0), n, n))
@@ -73,7 +83,63 @@ func (e *Engine) streamByteFacts(s *State, v brView) {
 	s.assume(Term{ax, SBool})
 }
 
-// modelBufio handles calls on *bufio.Reader and io.ReadFull with a bufio reader argument.
+func isReaderType(t types.Type, pkg, name string) bool {
+	pt, ok := t.(*types.Pointer)
+	if !ok {
+		return false
+	}
+	nt, ok := pt.Elem().(*types.Named)
+	return ok && nt.Obj().Pkg() != nil && nt.Obj().Pkg().Path() == pkg && nt.Obj().Name() == name
+}
+
+// readerRefOfIface: the reader ref when an io.Reader interface value is known to hold a *bufio.Reader or *bytes.Reader.
+func (e *Engine) readerRefOfIface(v Value) (Term, bool) {
+	it, ok := v.(Term)
+	if !ok {
+		return Term{}, false
+	}
+	dyn, payload, ok := e.ifaceDynType(it)
+	if !ok {
+		return Term{}, false
+	}
+	if isReaderType(dyn, "bufio", "Reader") || isReaderType(dyn, "bytes", "Reader") {
+		return payload, true
+	}
+	return Term{}, false
+}
+
+// readInto: the two outcomes of reading exactly n bytes into memory written by fill (success) or failing short.
+func (e *Engine) readExactly(s *State, dst *ssa.Call, ref Term, n Term, onOK func(st *State, v brView) Value, failVal func(st *State, errv Term) Value) []*State {
+	v := e.brGet(s, ref)
+	e.brFacts(s, v)
+	e.streamByteFacts(s, v)
+	avail := Sub(v.ln, v.pos)
+	s2 := s.fork()
+	var out []*State
+	s.assume(Le(n, avail))
+	rv := onOK(s, v)
+	e.brSetPos(s, ref, Add(v.pos, n))
+	if dst != nil {
+		s.top().regs[dst] = rv
+	}
+	if e.feasibleAlways(s) {
+		out = append(out, s)
+	}
+	v2 := e.brGet(s2, ref)
+	s2.assume(Not(Le(n, Sub(v2.ln, v2.pos))))
+	e.brSetPos(s2, ref, v2.ln)
+	errv := e.u.Fresh("readerr", SIface)
+	s2.assume(Not(Eq(App("i-type", SInt, errv), IntLit(0))))
+	if dst != nil {
+		s2.top().regs[dst] = failVal(s2, errv)
+	}
+	if e.feasibleAlways(s2) {
+		out = append(out, s2)
+	}
+	return out
+}
+
+// modelBufio handles calls on *bufio.Reader / *bytes.Reader, io.ReadFull and binary.Read on such readers.
 func (e *Engine) modelBufio(s *State, fr *Frame, dst *ssa.Call, key string, f *ssa.Function, args []Value, site ssa.Instruction) (Value, []*State, bool, bool) {
 	refOf := func(v Value) (Term, bool) {
 		if p, ok := v.(*Ptr); ok && p.Kind == pkObj {
@@ -81,19 +147,42 @@ func (e *Engine) modelBufio(s *State, fr *Frame, dst *ssa.Call, key string, f *s
 		}
 		return Term{}, false
 	}
+	const trust = "bufio.Reader / bytes.Reader as a ghost byte stream (pos, data, off, len)"
 	switch key {
 	case "bufio.NewReader", "bufio.NewReaderSize":
-		e.trustModel("bufio.Reader as a ghost byte stream (pos, data, len)")
+		e.trustModel(trust)
 		e.ghostKeys()
 		ref := e.newRef()
 		e.brSetPos(s, ref, IntLit(0))
+		e.brSet(s, gBrOff, ref, IntLit(0))
 		v := e.brGet(s, ref)
 		e.brFacts(s, v)
 		e.streamByteFacts(s, v)
 		rt := f.Signature.Results().At(0).Type().(*types.Pointer)
 		return &Ptr{Kind: pkObj, Ref: ref, Elem: rt.Elem()}, nil, true, false
+	case "bytes.NewReader":
+		e.trustModel(trust + "; bytes.NewReader(b) snapshots b's backing array")
+		e.ghostKeys()
+		b := args[0].(Term)
+		ref := e.newRef()
+		key8, sort8 := e.memKey(types.Typ[types.Uint8])
+		e.brSetPos(s, ref, IntLit(0))
+		e.brSet(s, gBrOff, ref, App("s-off", SInt, b))
+		e.brSet(s, gBrLen, ref, App("s-len", SInt, b))
+		e.brSet(s, gBrData, ref, Select(s.heapGet(key8, sort8), App("s-base", SInt, b)))
+		rt := f.Signature.Results().At(0).Type().(*types.Pointer)
+		return &Ptr{Kind: pkObj, Ref: ref, Elem: rt.Elem()}, nil, true, false
+	case "bytes.Reader.Len":
+		e.trustModel(trust)
+		ref, ok := refOf(args[0])
+		if !ok {
+			return nil, nil, false, false
+		}
+		v := e.brGet(s, ref)
+		e.brFacts(s, v)
+		return e.u.Define("rlen", Sub(v.ln, v.pos)), nil, true, false
 	case "bufio.Reader.Peek":
-		e.trustModel("bufio.Reader as a ghost byte stream (pos, data, len)")
+		e.trustModel(trust)
 		ref, ok := refOf(args[0])
 		if !ok {
 			return nil, nil, false, false
@@ -105,7 +194,6 @@ func (e *Engine) modelBufio(s *State, fr *Frame, dst *ssa.Call, key string, f *s
 		avail := Sub(v.ln, v.pos)
 		s2 := s.fork()
 		var out []*State
-		// enough bytes
 		s.assume(And(Le(IntLit(0), n), Le(n, avail)))
 		sl := e.freshBytesFromStream(s, v, v.pos, n)
 		if dst != nil {
@@ -114,7 +202,6 @@ func (e *Engine) modelBufio(s *State, fr *Frame, dst *ssa.Call, key string, f *s
 		if e.feasibleAlways(s) {
 			out = append(out, s)
 		}
-		// short: fewer bytes, error
 		s2.assume(Not(And(Le(IntLit(0), n), Le(n, avail))))
 		v2 := e.brGet(s2, ref)
 		k := e.u.Fresh("peekshort", SInt)
@@ -129,39 +216,66 @@ func (e *Engine) modelBufio(s *State, fr *Frame, dst *ssa.Call, key string, f *s
 			out = append(out, s2)
 		}
 		return nil, out, true, true
-	case "bufio.Reader.ReadByte":
-		e.trustModel("bufio.Reader as a ghost byte stream (pos, data, len)")
+	case "bufio.Reader.ReadByte", "bytes.Reader.ReadByte":
+		e.trustModel(trust)
 		ref, ok := refOf(args[0])
 		if !ok {
 			return nil, nil, false, false
 		}
-		v := e.brGet(s, ref)
-		e.brFacts(s, v)
-		e.streamByteFacts(s, v)
-		s2 := s.fork()
-		var out []*State
-		s.assume(Lt(v.pos, v.ln))
-		b := e.u.Define("rb", Select(v.data, v.pos))
-		e.brSetPos(s, ref, Add(v.pos, IntLit(1)))
-		if dst != nil {
-			s.top().regs[dst] = &Tuple{Vs: []Value{b, NilIface}}
-		}
-		out = append(out, s)
-		s2.assume(Not(Lt(v.pos, v.ln)))
-		errv := e.u.Fresh("rberr", SIface)
-		s2.assume(Not(Eq(App("i-type", SInt, errv), IntLit(0))))
-		if dst != nil {
-			s2.top().regs[dst] = &Tuple{Vs: []Value{IntLit(0), errv}}
-		}
-		out = append(out, s2)
+		out := e.readExactly(s, dst, ref, IntLit(1),
+			func(st *State, v brView) Value {
+				return &Tuple{Vs: []Value{e.u.Define("rb", v.at(v.pos)), NilIface}}
+			},
+			func(st *State, errv Term) Value { return &Tuple{Vs: []Value{IntLit(0), errv}} })
 		return nil, out, true, true
 	case "io.ReadFull":
-		// only when the reader is a bufio.Reader known by construction
-		it, ok := args[0].(Term)
+		ref, ok := e.readerRefOfIface(args[0])
 		if !ok {
 			return nil, nil, false, false
 		}
-		dyn, payload, ok := e.ifaceDynType(it)
+		e.trustModel("io.ReadFull on a bufio/bytes reader: fills the buffer from the ghost stream or fails consuming what was left")
+		buf := args[1].(Term)
+		n := App("s-len", SInt, buf)
+		key8, sort8 := e.memKey(types.Typ[types.Uint8])
+		inner := arrayElemSort(sort8)
+		out := e.readExactly(s, dst, ref, n,
+			func(st *State, v brView) Value {
+				h := st.heapGet(key8, sort8)
+				base, off := App("s-base", SInt, buf), App("s-off", SInt, buf)
+				if k, ok := litSmall(n); ok {
+					arr := Select(h, base)
+					for i := int64(0); i < k; i++ {
+						arr = Store(arr, Add(off, IntLit(i)), v.at(Add(v.pos, IntLit(i))))
+					}
+					st.heapSet(key8, Store(h, base, e.u.Define("readfullarr", arr)))
+				} else {
+					narr := e.u.Fresh("readfull", inner)
+					old := e.u.Define("oldarr", Select(h, base))
+					ax := fmt.Sprintf("(forall ((j Int)) (! (= (select %s j) (ite (and (<= %s j) (< j (+ %s %s))) (select %s (+ %s (+ %s (- j %s)))) (select %s j))) :pattern ((select %s j))))",
+						narr.S, off.S, off.S, n.S, v.data.S, v.off.S, v.pos.S, off.S, old.S, narr.S)
+					st.assume(Term{ax, SBool})
+					st.heapSet(key8, Store(h, base, narr))
+				}
+				return &Tuple{Vs: []Value{n, NilIface}}
+			},
+			func(st *State, errv Term) Value {
+				st.havocHeapKey(key8, "readfull.short")
+				got := e.u.Fresh("readfulln", SInt)
+				st.assume(And(Le(IntLit(0), got), Lt(got, n)))
+				return &Tuple{Vs: []Value{got, errv}}
+			})
+		return nil, out, true, true
+	case "encoding/binary.Read":
+		ref, ok := e.readerRefOfIface(args[0])
+		if !ok {
+			return nil, nil, false, false
+		}
+		// data must be a pointer to a fixed-size integer
+		dt, ok := args[2].(Term)
+		if !ok {
+			return nil, nil, false, false
+		}
+		dyn, payload, ok := e.ifaceDynType(dt)
 		if !ok {
 			return nil, nil, false, false
 		}
@@ -169,64 +283,31 @@ func (e *Engine) modelBufio(s *State, fr *Frame, dst *ssa.Call, key string, f *s
 		if !ok {
 			return nil, nil, false, false
 		}
-		if nt, ok := pt.Elem().(*types.Named); !ok || nt.Obj().Pkg() == nil || nt.Obj().Pkg().Path() != "bufio" || nt.Obj().Name() != "Reader" {
+		bt, ok := pt.Elem().Underlying().(*types.Basic)
+		if !ok || bt.Info()&types.IsInteger == 0 || bt.Kind() == types.Int || bt.Kind() == types.Uint {
 			return nil, nil, false, false
 		}
-		e.trustModel("io.ReadFull on a bufio.Reader: fills the buffer from the ghost stream or fails consuming what was left")
-		ref := payload
-		buf := args[1].(Term)
-		n := App("s-len", SInt, buf)
-		v := e.brGet(s, ref)
-		e.brFacts(s, v)
-		e.streamByteFacts(s, v)
-		avail := Sub(v.ln, v.pos)
-		s2 := s.fork()
-		var out []*State
-		{
-			s.assume(Le(n, avail))
-			key, sort := e.memKey(types.Typ[types.Uint8])
-			inner := arrayElemSort(sort)
-			h := s.heapGet(key, sort)
-			base, off := App("s-base", SInt, buf), App("s-off", SInt, buf)
-			if k, ok := litSmall(n); ok {
-				arr := Select(h, base)
-				for i := int64(0); i < k; i++ {
-					arr = Store(arr, Add(off, IntLit(i)), Select(v.data, Add(v.pos, IntLit(i))))
+		// byte order must be big endian (the only one the repository uses)
+		if ot, ok := args[1].(Term); ok {
+			if odyn, _, ok := e.ifaceDynType(ot); !ok || odyn.String() != "encoding/binary.bigEndian" {
+				return nil, nil, false, false
+			}
+		}
+		e.trustModel("encoding/binary.Read of a fixed-size big-endian integer from a bufio/bytes reader")
+		nb := int64(intBits(bt) / 8)
+		out := e.readExactly(s, dst, ref, IntLit(nb),
+			func(st *State, v brView) Value {
+				var r Term = IntLit(0)
+				for i := int64(0); i < nb; i++ {
+					r = Add(Mul(r, IntLit(256)), v.at(Add(v.pos, IntLit(i))))
 				}
-				s.heapSet(key, Store(h, base, e.u.Define("readfullarr", arr)))
-			} else {
-				narr := e.u.Fresh("readfull", inner)
-				old := e.u.Define("oldarr", Select(h, base))
-				ax := fmt.Sprintf("(forall ((j Int)) (! (= (select %s j) (ite (and (<= %s j) (< j (+ %s %s))) (select %s (+ %s (- j %s))) (select %s j))) :pattern ((select %s j))))",
-					narr.S, off.S, off.S, n.S, v.data.S, v.pos.S, off.S, old.S, narr.S)
-				s.assume(Term{ax, SBool})
-				s.heapSet(key, Store(h, base, narr))
-			}
-			e.brSetPos(s, ref, Add(v.pos, n))
-			if dst != nil {
-				s.top().regs[dst] = &Tuple{Vs: []Value{n, NilIface}}
-			}
-			if e.feasibleAlways(s) {
-				out = append(out, s)
-			}
-		}
-		{
-			v2 := e.brGet(s2, ref)
-			s2.assume(Not(Le(n, Sub(v2.ln, v2.pos))))
-			key, _ := e.memKey(types.Typ[types.Uint8])
-			s2.havocHeapKey(key, "readfull.short")
-			e.brSetPos(s2, ref, v2.ln)
-			got := e.u.Fresh("readfulln", SInt)
-			s2.assume(And(Le(IntLit(0), got), Lt(got, n)))
-			errv := e.u.Fresh("readfullerr", SIface)
-			s2.assume(Not(Eq(App("i-type", SInt, errv), IntLit(0))))
-			if dst != nil {
-				s2.top().regs[dst] = &Tuple{Vs: []Value{got, errv}}
-			}
-			if e.feasibleAlways(s2) {
-				out = append(out, s2)
-			}
-		}
+				val := e.u.Define("binread", wrapInt(r, bt))
+				if err := st.store(&Ptr{Kind: pkObj, Ref: payload, Elem: pt.Elem()}, val); err != nil {
+					e.bail("binary.Read: %v", err)
+				}
+				return NilIface
+			},
+			func(st *State, errv Term) Value { return errv })
 		return nil, out, true, true
 	}
 	return nil, nil, false, false
@@ -246,17 +327,20 @@ func (e *Engine) brSpec(env *Env, fun string, args []Expr) (TV, bool, error) {
 	}
 	p, ok := v.V.(*Ptr)
 	if !ok || p.Kind != pkObj {
-		return TV{}, true, fmt.Errorf("%s: argument is not a *bufio.Reader", fun)
+		return TV{}, true, fmt.Errorf("%s: argument is not a reader pointer", fun)
 	}
-	key := map[string]string{"brPos": gBrPos, "brLen": gBrLen, "brAt": gBrData}[fun]
-	h := e.heapIn(env, key, e.heapSorts[key])
-	t := Select(h, p.Ref)
-	if fun == "brAt" {
+	get := func(key string) Term { return Select(e.heapIn(env, key, e.heapSorts[key]), p.Ref) }
+	// data-structure invariant of every reader (all model operations preserve it): 0 <= pos <= len
+	env.s.assume(And(Le(IntLit(0), get(gBrPos)), Le(get(gBrPos), get(gBrLen)), Le(IntLit(0), get(gBrOff))))
+	switch fun {
+	case "brAt":
 		i, err := e.evalTerm(env, args[1])
 		if err != nil {
 			return TV{}, true, err
 		}
-		return TV{Select(t, i), types.Typ[types.Uint8]}, true, nil
+		return TV{Select(get(gBrData), Add(get(gBrOff), i)), types.Typ[types.Uint8]}, true, nil
+	case "brPos":
+		return TV{get(gBrPos), types.Typ[types.Int]}, true, nil
 	}
-	return TV{t, types.Typ[types.Int]}, true, nil
+	return TV{get(gBrLen), types.Typ[types.Int]}, true, nil
 }
